@@ -207,6 +207,96 @@ fn run_n<const N: usize>(case: &Case) -> Outcome {
     Ok(Pass { nontrivial: differ && conflict, labels })
 }
 
+/// Exhaustive small scope (the statement's quantifier: "exhaustively over a bounded universe"): every triple of
+/// replicas every pool of `replicas::small` can build. Words: [universe, variant, pool, plan A, plan B, plan C].
+pub struct C03Small;
+
+fn triples(which: usize, variant: usize, max_k: usize, out: &mut Vec<Vec<u64>>) {
+    let sm = crate::replicas::small(which);
+    for (pi, pool) in sm.pools.iter().enumerate() {
+        if pool.ops.len() > max_k {
+            continue;
+        }
+        let n = sm.plans[pi][variant].len() as u64;
+        for a in 0..n {
+            for b in 0..n {
+                for c in 0..n {
+                    out.push(vec![which as u64, variant as u64, pi as u64, a, b, c]);
+                }
+            }
+        }
+    }
+}
+
+pub fn small_space() -> Vec<Vec<u64>> {
+    let mut out = vec![];
+    triples(0, 0, 3, &mut out); // Window, one source: every ordered subset
+    triples(0, 2, 2, &mut out); // Window, two sources, every source assignment, pools of <= 2 ops
+    triples(1, 1, 3, &mut out); // Prefix (stamps over > 2 h), two sources, one source per replica
+    out
+}
+
+pub fn small_space_thorough() -> Vec<Vec<u64>> {
+    let mut out = small_space();
+    triples(0, 1, 3, &mut out); // Window, two sources, one source per replica, pools of 3 ops
+    triples(1, 2, 3, &mut out); // Prefix, every source assignment
+    out
+}
+
+impl Prop for C03Small {
+    type Case = Case;
+
+    fn id(&self) -> &'static str {
+        "C03"
+    }
+
+    fn part(&self) -> &'static str {
+        "small-scope-triples"
+    }
+
+    fn width(&self) -> usize {
+        6
+    }
+
+    fn gen(&self, src: &mut Src) -> Case {
+        let which = (src.word() as usize).min(1);
+        let variant = (src.word() as usize).min(2);
+        let sm = crate::replicas::small(which);
+        let pi = (src.word() as usize) % sm.pools.len();
+        let plans = &sm.plans[pi][variant];
+        let mut pick = || plans[(src.word() as usize) % plans.len()].clone();
+        let plans3 = [pick(), pick(), pick()];
+        Case {
+            sources: if variant == 0 { 1 } else { 2 },
+            pool: sm.pools[pi].clone(),
+            plans: plans3,
+            pre: [None; 3],
+            sched_a: vec![1, 2, 1],
+            sched_b: vec![2, 0, 1],
+            wall: 0,
+        }
+    }
+
+    fn run(&self, case: &Case) -> Outcome {
+        C03.run(case)
+    }
+
+    fn describe(&self, case: &Case) -> Value {
+        C03.describe(case)
+    }
+
+    fn rule(&self) -> &'static str {
+        "exhaustive: every pool of 1-3 operations with distinct stamps out of a universe of 4 (Window: two origins, a \
+         (time, counter) tie across them, all within 1000 s) or 5 (Prefix: two origins, stamps over 7400 s) stamps, keys \
+         {1,2}, insert / delete; every triple of replicas such a pool can build (Window: every ordered subset; Prefix: every \
+         per-origin prefix) on OrSWotSet<1> and, with two sources on OrSWotSet<2> (quick: every source assignment for Window pools of <= 2 operations, one source \
+         per replica for Prefix pools; thorough: every assignment for Prefix pools, one source per replica for Window pools of 3); same oracle as merge-laws"
+    }
+}
+
 pub fn parts() -> Vec<Box<dyn DynPart>> {
-    vec![Box::new(Gen::new(C03, 3_000_000, 300_000_000))]
+    vec![
+        Box::new(Gen::new(C03, 3_000_000, 300_000_000)),
+        Box::new(Gen::listed2(C03Small, small_space, small_space_thorough)),
+    ]
 }
